@@ -36,6 +36,13 @@ inductive Op (N H : Type)
   | remove (r : Nat) | removeAll
   deriving Repr
 
+/-- a device changed behind the stack's back: `remote.uid = new` / `remote.name = new` / `remote.ha = new` written
+directly (or by ANOTHER stack that holds the same device object and moves / renames / re-addresses it there):
+only the device object changes, no index of this stack is touched -/
+inductive Tamper (N H : Type)
+  | setUid (r : Nat) (new : Nat) | setName (r : Nat) (new : N) | setHa (r : Nat) (new : H)
+  deriving Repr
+
 inductive Out
   | none          -- returned normally
   | ref (n : Nat) -- the new object
@@ -75,6 +82,11 @@ def initWith (defaultName : Nat → N) (defaultHa : H) (puid : Nat) (uid : Optio
     (ha : Option H) (devs : List (Dev N H)) (uidR : List (Nat × Nat)) (nameR : List (N × Nat))
     (haR : List (H × Nat)) : St N H :=
   { init defaultName defaultHa puid uid name ha with devs := devs, uidR := uidR, nameR := nameR, haR := haR }
+
+def tamper (s : St N H) : Tamper N H → Option (St N H)
+  | .setUid r new => (s.devs[r]?).map (fun d => { s with devs := s.devs.set r { d with uid := new } })
+  | .setName r new => (s.devs[r]?).map (fun d => { s with devs := s.devs.set r { d with name := new } })
+  | .setHa r new => (s.devs[r]?).map (fun d => { s with devs := s.devs.set r { d with ha := new } })
 
 /-- `IpDevice.__init__`: a given (truthy) ha has its host normalised (`norm`: `aioing.normalizeHost`, then
 '0.0.0.0' → '127.0.0.1', '::' → '::1'), a missing one is `('127.0.0.1', stack.Port)`.  Nothing else normalises:
